@@ -364,6 +364,30 @@ def relocate_moved_adts(j, base):
     return json.loads(text), moved
 
 
+def canonicalise_params(j):
+    """A renamed function parameter is a renamed local: the parameters of every function that exists in the baseline (same
+    path, same number of arguments) carry their baseline names, whatever they are called in the current source."""
+    import os
+    base_path = os.path.join(os.path.dirname(os.path.dirname(os.path.abspath(__file__))), 'tables', 'names_baseline.json')
+    if not os.path.exists(base_path) or j.get('crate') != 'kira':
+        return {}
+    bp = json.load(open(base_path)).get('params') or {}
+    ren = {}
+    for b in j['bodies']:
+        if b['krate'] != 'kira' or not b['key'].startswith('D:') or '{closure' in b['path']:
+            continue
+        want = bp.get(norm(b['path']))
+        n = b.get('arg_count', 0)
+        if not want or len(want) != n:
+            continue
+        for d in b['debug']:
+            v = d['v']
+            if 'l' in v and not v['p'] and 1 <= v['l'] <= n and want[v['l'] - 1] and d['name'] != want[v['l'] - 1]:
+                ren.setdefault(norm(b['path']), {})[d['name']] = want[v['l'] - 1]
+                d['name'] = want[v['l'] - 1]
+    return ren
+
+
 def canonicalise_names(j):
     """Behaviour-preserving renames of functions and struct fields must not change a verdict.  The names of the pinned
     tree are kept in tables/names_baseline.json; a function that disappeared and reappears in the same impl (or module)
@@ -604,6 +628,7 @@ class Facts:
             if os.path.exists(bp):
                 j, self.moved_adts = relocate_moved_adts(j, json.load(open(bp)))
         self.renamed_fns, self.renamed_fields = canonicalise_names(j)
+        self.renamed_params = canonicalise_params(j)
         self.inlined = inline_new_helpers(j)
         self.j = j
         self.consts = {}
